@@ -540,6 +540,14 @@ func SetRecord(name string, typ recordtype.Type, id byte, data string) {
 	if recBytes == nil {
 		panic("invalid record id")
 	}
+	recordsKey := getRecordsKeyByType(tokenID, name, typ)
+	records := storage.Find(ctx, recordsKey, storage.ValuesOnly|storage.DeserializeValues)
+	for iterator.Next(records) {
+		r := iterator.Value(records).(RecordState)
+		if r.ID != id && r.Name == name && r.Type == typ && r.Data == data {
+			panic("record already exists")
+		}
+	}
 	storeRecord(ctx, tokenID, name, typ, id, data)
 	updateSoaSerial(ctx, tokenID)
 }
